@@ -159,6 +159,16 @@ def build_mutants(case, pr):
         d = xk.Doc(plain)
         a = d.find(xk.SAML, "Assertion")[0]
         src = [("assertion-replaced", "edit", d.replace(a, xm.evilize(d.standalone(a), new_id=pr["aid"] + "e")).text())]
+    # ciphertext made by somebody else: a forged assertion encrypted to the SP's public certificate and put where a decrypting pass may
+    # find it although no signature check ever will - beside the genuine (signed, encrypted) assertion
+    if A:
+        try:
+            for n, m in attacker_ciphertexts(pr, sp_cert):
+                yield n, "xsw", "Assertion", "noR" if not R else "stripR", m
+                if R:
+                    yield n, "xsw", "Assertion", "staleR", _graft_signature(m, stale_r)
+        except Exception as exc:
+            yield "MUTATOR-ERROR:attacker-ciphertext:%s" % type(exc).__name__, "error", "Assertion", "-", None
     for n, f, m in src:
         if m is None:
             yield n, f, "Assertion", "-", None
@@ -171,6 +181,36 @@ def build_mutants(case, pr):
         yield n, f, "Assertion", "noR" if not R else "stripR", e
         if R:
             yield n, f, "Assertion", "staleR", _graft_signature(e, stale_r)
+
+
+def attacker_ciphertexts(pr, sp_cert):
+    """(name, document): the genuine response with its assertion encrypted, plus attacker-made EncryptedData in various wrappings/slots"""
+    d = xk.Doc(pr["plain"])
+    a = d.find(xk.SAML, "Assertion")[0]
+    genuine = xk.encrypt_assertions(pr["plain"], sp_cert)
+    forged = {"sig-kept": xm.evilize(d.standalone(a), new_id=pr["aid"] + "f"), "sig-stripped": xm.evilize(d.standalone(a), new_id=pr["aid"] + "g", keep_sig=False)}
+    S = xk.SAML.encode()
+    for fk, f in sorted(forged.items()):
+        ea_plain = b'<saml:EncryptedAssertion xmlns:saml="' + S + b'">' + f + b"</saml:EncryptedAssertion>"
+        payloads = {
+            "assertion": xk.encrypt_fragment(f, sp_cert),                                     # decrypts to a bare Assertion
+            "encrypted-assertion-around-plain-assertion": xk.encrypt_fragment(ea_plain, sp_cert),   # decrypts to an EncryptedAssertion holding a plain Assertion
+            "twice-encrypted": xk.encrypt_fragment(b'<saml:EncryptedAssertion xmlns:saml="' + S + b'">' + xk.encrypt_fragment(f, sp_cert) + b"</saml:EncryptedAssertion>", sp_cert),
+        }
+        for pk, ed in sorted(payloads.items()):
+            g = xk.Doc(genuine)
+            gea = g.find(xk.SAML, "EncryptedAssertion")[0]
+            st = g.root.child(xk.SAMLP, "Status")
+            slots = {
+                "bare-under-response-after": lambda: g.append_child(g.root, ed),
+                "bare-under-response-before": lambda: g.insert_before(gea, ed),
+                "in-extensions": lambda: g.insert_before(st, b'<samlp:Extensions xmlns:samlp="' + xk.SAMLP.encode() + b'">' + ed + b"</samlp:Extensions>"),
+                "in-status-detail": lambda: g.append_child(st, b'<samlp:StatusDetail xmlns:samlp="' + xk.SAMLP.encode() + b'">' + ed + b"</samlp:StatusDetail>"),
+                "second-encrypted-assertion": lambda: g.insert_after(gea, b'<saml:EncryptedAssertion xmlns:saml="' + S + b'">' + ed + b"</saml:EncryptedAssertion>"),
+                "second-encrypted-data-in-genuine-encrypted-assertion": lambda: g.append_child(gea, ed),
+            }
+            for sk, fn in sorted(slots.items()):
+                yield "attacker-ciphertext:%s:%s:%s" % (pk, sk, fk), fn().text()
 
 
 def check_accept(case, name, target, rmode, text, resp, evs, base_ident, pr):
